@@ -12,7 +12,7 @@ import (
 func init() {
 	register(&propInfo{
 		id: "C16", fn: checkC16, multiConfig: true,
-		explanation: "Deadlock- and race-freedom for every schedule are decided with a lock-order graph and a guarded-by lockset: (r1) for every explicit lock acquisition the set of locks that may be held there (interprocedural may-held sets, including through DecRef → removeChild/Close chains, wrapper callbacks and deferred calls) yields edges held-class → acquired-class; the graph must be acyclic and a sub-order of the documented hierarchy renameMu > opMu > {fidMu, openMu} > childMu with tagMu, sendMu, recvMu, pool.mu, pendingMu as leaves; (r2) acquiring a lock while one of the same class may be held is allowed only at the sites frozen in a table with one reason each (opMu: parent then pathNodeFor(child) of that parent; childMu: only under renameMu:W and either towards an ancestor, down to a child node, or guarded by the run-time identity test) — anything else is a potential self-deadlock; (r3) no acquisition of renameMu while renameMu may be held (RWMutex read recursion deadlocks behind a waiting writer), same for one node's opMu; (r4) channel operations, select, WaitGroup.Wait, recv and send happen with at most their own token lock held; (r5) every access to a field of the frozen guarded-by table happens with its lock held in the required mode (must-held sets; class granularity for childMu), fields documented as atomic are touched only through sync/atomic, objects not yet published are exempt; (r6) pendingXattr is mutated under a shared lock, safe exactly under the property's one-request-per-fid discipline (recorded). The isolation-of-results clause is decided only in its necessary-condition form: no cross-connection mutable state exists outside the path tree, renameMu and the process-wide pools.",
+		explanation: "Deadlock- and race-freedom for every schedule are decided with a lock-order graph and a guarded-by lockset: (r1) for every explicit lock acquisition the set of locks that may be held there (interprocedural may-held sets, including through DecRef → removeChild/Close chains, wrapper callbacks and deferred calls) yields edges held-class → acquired-class; the graph must be acyclic and a sub-order of the documented hierarchy renameMu > opMu > {fidMu, openMu} > childMu with tagMu, sendMu, recvMu, pool.mu, pendingMu as leaves; (r2) acquiring a lock while one of the same class may be held is allowed only at the sites frozen in a table with one reason each (opMu: parent then pathNodeFor(child) of that parent; childMu: only under renameMu:W and either towards an ancestor, down to a child node, or guarded by the run-time identity test) — anything else is a potential self-deadlock; (r3) no acquisition of renameMu while renameMu may be held (RWMutex read recursion deadlocks behind a waiting writer), same for one node's opMu; (r4) channel operations, select, WaitGroup.Wait, recv and send happen with at most their own token lock held; (r5) every access to a field of the frozen guarded-by table happens with its lock held in the required mode (must-held sets; class granularity for childMu), fields documented as atomic are touched only through sync/atomic, objects not yet published are exempt; (r6) pendingXattr is mutated under a shared lock, safe exactly under the property's one-request-per-fid discipline (recorded). The isolation-of-results clause is decided only in its necessary-condition form: no cross-connection mutable state exists outside the path tree, renameMu and the process-wide pools. (r9) isolation of what sessions share: a reference that reached zero is never revived (the rule of C05.r4: a revived one is closed twice and releases its parent, possibly held by another session, twice), and a client registers its waiter before the request leaves (the rule of C10.r3: otherwise a fast reply is taken for an unexpected tag and fails every pending call).",
 		assumptions: []string{"liveness under a real scheduler (fairness, wake-up order) is not decided", "clients keep at most one request outstanding per fid (the property's workload): pendingXattr and the open state rely on it", "lock instances are compared structurally; no pointer analysis"},
 	})
 }
@@ -288,6 +288,17 @@ func checkC16(r *Run) {
 		}
 	}
 	_ = info
+
+	if r.borrowed == nil {
+		// r9: one session cannot pull a reference out from under another: a reference whose
+		// count reached zero is never revived (C05.r4) - a revived one is closed twice and its
+		// parent, which another session may hold, is released twice
+		r.borrow(checkC05, map[string]string{"r4": "r9"})
+		// ... and a client's calls do not fail each other: the waiter is registered before the
+		// request leaves (C10.r3), so a fast reply cannot be taken for an unexpected tag, which
+		// fails every pending call of the client
+		r.borrow(checkC10, map[string]string{"r3": "r9"})
+	}
 }
 
 // c16NestingAllowed judges one same-class nesting.
